@@ -113,7 +113,7 @@ def leaf_spec(kinds=None, depth=1, required=None):
             base["opts"] = D({"allow_ipv4": st.booleans()})
         elif kind == "filename":
             base["opts"] = D({"exists": st.sampled_from([None, False, True, "dir", "file"]),
-                              "startdir": st.sampled_from(["$ROOT/fs", "$ROOT/fs", "$ROOT/fs/sub", "$ROOT/fs/sub/../sub"])})
+                              "startdir": st.sampled_from(["$ROOT/fs", "$ROOT/fs", "$ROOT/fs/sub", "$ROOT/fs/sub/../sub", "fs", "fs/sub", "./fs", None])})
         elif kind == "bytes":
             base["opts"] = D({"encoding": st.sampled_from(["base64", "hex"])})
         elif kind == "loglevel":
